@@ -16,7 +16,8 @@ Fault sites (label = '<hook>:<when>', counted per process role; in a worker the 
            plan:before|after (generate_tasks), merge_bams:before|after, merge:before|after|partial (pysam.merge),
            rmtree:before|after|fail
   job:<contig>: job:before|after (run_tagging_tasks), write, sbf_exit, rehead, sort, index  as above
-Fault kinds: 'exception' (RuntimeError), 'ioerror' (OSError ENOSPC), 'kill' (os._exit(137)); when 'partial' = the real
+Fault kinds: 'exception' (RuntimeError), 'ioerror' (OSError ENOSPC), 'interrupt' (SIGINT to the process itself ->
+KeyboardInterrupt, a BaseException), 'kill' (os._exit(137)); when 'partial' = the real
 function runs, its output file is truncated to half its size, then the fault fires (a sort/merge that dies half way);
 when 'short' = same, but the output is replaced by a valid BAM holding only the first half of the records.
 """
@@ -84,6 +85,14 @@ def _spoil(when, target):
 
 
 def _raise(f, msg):
+    if f.get('kind') == 'interrupt':
+        # a real SIGINT to this process: Python's handler raises KeyboardInterrupt (a BaseException) right here
+        import signal
+        import time
+        signal.signal(signal.SIGINT, signal.default_int_handler)
+        os.kill(os.getpid(), signal.SIGINT)
+        time.sleep(0.2)
+        raise KeyboardInterrupt(msg)        # not reached when the handler fired
     if f.get('kind') == 'ioerror':
         import errno
         raise InjectedIOError(errno.ENOSPC, 'No space left on device (%s)' % msg)
